@@ -41,7 +41,9 @@ let () =
          (match target_format fx (bytes_of_hex fmt) cs (bytes_of_hex msg) lz (ell <> "0") o garbage with
           | FDone b -> pr ("out " ^ hex_of_bytes b)
           | FOob t -> pr ("oob " ^ string_of_z t));
-         pr ("spec " ^ hex_of_bytes (line_spec (bytes_of_hex fmt) cs (bytes_of_hex msg) lz (ell <> "0") o))
+         pr ("spec " ^ hex_of_bytes (line_spec (bytes_of_hex fmt) cs (bytes_of_hex msg) lz (ell <> "0") o));
+         (* the hypothesis of C13_text_partial, evaluated by the extracted predicate *)
+         pr (if line_guard (bytes_of_hex fmt) cs (bytes_of_hex msg) lz o then "guard 1" else "guard 0")
        | ["F"; l; fmt] ->
          let (pid, host, name) = match !orc with [a; b; c] -> (a, b, c) | _ -> ([], [], []) in
          let o = { o_time_t = []; o_time_T = []; o_pid = pid; o_host = host; o_name = name } in
